@@ -80,7 +80,10 @@ func solve(o *Obligation, dir string, timeout int, all bool, wantModel bool) *So
 	file := filepath.Join(dir, sanitizeFile(o.ID)+".smt2")
 	os.WriteFile(file, []byte(q), 0o644)
 	res := &SolveResult{File: file, Verdict: "unknown"}
-	for _, s := range solvers {
+	for si, s := range solvers {
+		if o.exclude != nil && si > 0 {
+			break // a batch is only an accelerator: members are solved one by one when it is not refuted at once
+		}
 		v, out, secs := runSolver(s, file, timeout)
 		res.Total += secs
 		res.Tried = append(res.Tried, fmt.Sprintf("%s:%s:%.2fs", s.name, v, secs))
@@ -131,8 +134,8 @@ func solveAll(obls []*Obligation, dir string, timeout int, all bool, workers int
 	batches := map[string][]*Obligation{}
 	var order []string
 	for _, o := range obls {
-		if o.Kind == "safety" && o.fv != nil && o.raw == "" {
-			k := fmt.Sprintf("%p/%d", o.fv, o.tag)
+		if (o.Kind == "safety" || o.Kind == "step") && o.fv != nil && o.raw == "" {
+			k := fmt.Sprintf("%p/%d/%s", o.fv, o.tag, o.Kind)
 			if _, ok := batches[k]; !ok {
 				order = append(order, k)
 			}
@@ -162,8 +165,12 @@ func solveAll(obls []*Obligation, dir string, timeout int, all bool, workers int
 					for _, m := range j.members {
 						ex[m] = true
 					}
-					b := &Obligation{ID: last.ID + "+batch", Kind: "safety", tag: last.tag, nlines: last.nlines, guard: "true", goal: and(goals...), fv: last.fv, exclude: ex}
-					r := solve(b, dir, timeout, all, false)
+					b := &Obligation{ID: last.ID + "+batch", Kind: last.Kind, tag: last.tag, nlines: last.nlines, guard: "true", goal: and(goals...), fv: last.fv, exclude: ex}
+					bt := timeout / 3
+					if bt < 10 {
+						bt = 10
+					}
+					r := solve(b, dir, bt, all, false)
 					if r.Verdict == "unsat" {
 						for _, m := range j.members {
 							rr := *r
